@@ -2,7 +2,9 @@
 //! enumerates and records what it did, for TLC to judge.
 mod ast;
 mod common;
+mod cpset;
 mod escape;
+mod fold;
 mod grammar;
 mod render;
 mod replace;
@@ -23,6 +25,8 @@ fn main() {
         "escape" => escape::main(rest),
         "grammar" => grammar::main(rest),
         "render" => render::main(rest),
+        "cpset" => cpset::main(rest),
+        "fold" => fold::main(rest),
         other => {
             eprintln!("unknown command {}", other);
             2
